@@ -110,6 +110,9 @@ impl<'a, 'b> G<'a, 'b> {
     fn timeout(&mut self, small_max: usize) -> u32 {
         let v = match self.p {
             Profile::Plausible => self.t.range(1, small_max) as u32,
+            // 0 is normally rejected by the parser; it is still tried so that a relaxed parser-side
+            // check (which the run-time arithmetic relies on) is noticed: only accepted configs run
+            Profile::Boundary if self.t.chance(1, 60) => 0,
             Profile::Boundary => match self.t.pick(8) {
                 0 => 1,
                 1 => 2,
@@ -272,7 +275,17 @@ impl<'a, 'b> G<'a, 'b> {
                 6 => format!("({})", self.macro_items(depth + 1)),
                 7 => {
                     self.info.macro_ticks += 2;
-                    (*self.t.choose(&["mltp", "mrtp", "mwu", "sldr", "rpt"])).to_string()
+                    match self.t.pick(8) {
+                        0 => "mltp".to_string(),
+                        1 => "mrtp".to_string(),
+                        2 => "mwu".to_string(),
+                        3 => "sldr".to_string(),
+                        4 => "rpt".to_string(),
+                        // custom actions with a press and a release handler inside a macro
+                        5 => format!("(mwheel-up {} 120)", self.t.range(1, 20)),
+                        6 => "mlft".to_string(),
+                        _ => format!("(movemouse-left {} 3)", self.t.range(1, 10)),
+                    }
                 }
                 _ => match self.vkeys.is_empty() {
                     true => "n".to_string(),
@@ -384,7 +397,8 @@ impl<'a, 'b> G<'a, 'b> {
                 let eager = !ctx.waiting_ok || self.t.chance(1, 2);
                 self.feat(if eager { "tap-dance-eager" } else { "tap-dance" });
                 let t = self.timeout(30);
-                let n = self.t.range(1, 4);
+                // an empty action list is tried at the acceptance boundary
+                let n = if self.p == Profile::Boundary && self.t.chance(1, 25) { 0 } else { self.t.range(1, 4) };
                 let acts: Vec<String> = (0..n).map(|_| self.action(Ctx { waiting_ok: false, ..inner })).collect();
                 format!("({} {t} ({}))", if eager { "tap-dance-eager" } else { "tap-dance" }, acts.join(" "))
             }
@@ -411,7 +425,7 @@ impl<'a, 'b> G<'a, 'b> {
                 let interval = self.timeout(30);
                 let dist = match self.p {
                     Profile::Plausible => self.t.range(1, 240),
-                    Profile::Boundary => *self.t.choose(&[1usize, 120, 30000]),
+                    Profile::Boundary => if self.t.chance(1, 30) { *self.t.choose(&[30001usize, 0]) } else { *self.t.choose(&[1usize, 120, 30000]) },
                 };
                 format!("({dir} {interval} {dist})")
             }
@@ -423,7 +437,7 @@ impl<'a, 'b> G<'a, 'b> {
                         let interval = self.timeout(20);
                         let dist = match self.p {
                             Profile::Plausible => self.t.range(1, 20),
-                            Profile::Boundary => *self.t.choose(&[1usize, 30000, 5]),
+                            Profile::Boundary => if self.t.chance(1, 30) { *self.t.choose(&[30001usize, 0]) } else { *self.t.choose(&[1usize, 30000, 5]) },
                         };
                         format!("({dir} {interval} {dist})")
                     }
@@ -505,7 +519,7 @@ impl<'a, 'b> G<'a, 'b> {
                 self.feat("arbitrary-code");
                 format!("(arbitrary-code {})", match self.p {
                     Profile::Plausible => self.t.range(1, 700),
-                    Profile::Boundary => *self.t.choose(&[0usize, 1, 766, 767, 700]),
+                    Profile::Boundary => if self.t.chance(1, 30) { 768 } else { *self.t.choose(&[0usize, 1, 766, 767, 700]) },
                 })
             }
             39 if self.allow_latching => {
@@ -536,7 +550,7 @@ impl<'a, 'b> G<'a, 'b> {
         if leafy {
             match self.t.pick(8) {
                 0 | 1 => self.any_key().to_string(),
-                2 => format!("(key-history {} {})", self.any_key(), self.t.range(1, 8)),
+                2 => format!("(key-history {} {})", self.any_key(), if self.p == Profile::Boundary && self.t.chance(1, 30) { *self.t.choose(&[0usize, 9]) } else { self.t.range(1, 8) }),
                 3 => format!(
                     "(key-timing {} {} {})",
                     self.t.range(1, 8),
@@ -645,7 +659,7 @@ pub fn build(tape: &[u16], profile: Profile, allow_latching: bool) -> Built {
     if want_chords_v2 {
         let mi = match profile {
             Profile::Plausible => g.t.range(5, 30),
-            Profile::Boundary => *g.t.choose(&[5usize, 6, 65535, 100]),
+            Profile::Boundary => if g.t.chance(1, 30) { *g.t.choose(&[4usize, 0]) } else { *g.t.choose(&[5usize, 6, 65535, 100]) },
         };
         cfg.push_str(&format!(" chords-v2-min-idle {mi}"));
         g.info.timeouts.push(mi as u32);
